@@ -66,7 +66,8 @@ func RegisterLevel(levelValue Level, title string, opts ...RegOpt) error {
 			return fmt.Errorf("the given level %q is duplicated with %q", shortTagMap[5][v], v)
 		}
 	}
-	if l, ok := stringToLevel[title]; ok {
+	// ParseLevel looks names up in lower case, so register (and test) them that way
+	if l, ok := stringToLevel[strings.ToLower(title)]; ok {
 		// return errorsv2.New("the title %q has been used for %q", title, l)
 		return fmt.Errorf("the title %q has been used for %q", title, l)
 	}
@@ -82,7 +83,7 @@ func RegisterLevel(levelValue Level, title string, opts ...RegOpt) error {
 
 	allLevels = append(allLevels, levelValue)
 	levelToString[levelValue] = title
-	stringToLevel[title] = levelValue
+	stringToLevel[strings.ToLower(title)] = levelValue
 
 	for i := 0; i < MaxLengthShortTag; i++ {
 		if str := pack.shortTags[i]; str != "" {
